@@ -506,6 +506,13 @@ class Closing(State):
     def run(self) -> None:
         self.set_closing_state(set_name=True)
 
+        #: The peer may go away without ever answering the DPR. Without 
+        #: this check the state machine would wait for a DPA forever and 
+        #: the transport would never be released.
+        if self.is_set_release_signal_from_peer():
+            self.event_peer_disc()
+            return
+
         if self.has_recv_queue_message():
             self.msg = self.get_message()
 
@@ -519,6 +526,12 @@ class Closing(State):
         open_logger.debug("Event has been triggered.")
 
         self.set_closed_state(force=True)
+
+
+    def event_peer_disc(self) -> None:
+        closing_logger.debug("Event has been triggered.")
+
+        self.set_closed_state()
 
 
 class PeerStateMachine():
